@@ -47,7 +47,7 @@ MANIFEST = {
             "per-thread symbolic clocks - the observable state of context A after k rounds is equal whether or not an "
             "unrelated context B runs interleaved; (b) whole-core scenarios on the TLS model: every public module, "
             "pub/sub and source call issued from a foreign simulated thread (own context / no context) is refused and "
-            "the module and context blocks are byte-identical afterwards",
+            "the module and context blocks are byte-identical afterwards; also when the foreign context holds a module with the same name as the target",
     "note": "interleaving at call granularity only; instruction-level races are outside what CBMC can encode here "
             "(stated as not covered); 2 contexts",
 }
